@@ -12,7 +12,7 @@ RULE = ('(any step may run in a helper thread that is started and joined at once
         'depth, max_seq_len, sort_dict_keys}) / get_default_config() / print(value, entry point, explicitly passed subset '
         'of {indent, width, ribbon_width, depth, max_seq_len, sort_dict_keys}, end string) with entry point in {pformat, '
         'pprint to a StringIO, pprint to a redirected sys.stdout, cpprint with colour off, cpprint with colour on (SGR '
-        'stripped), a PrettyPrinter object constructed earlier in the history, pretty_repr of a registered type, PrettyPrinter(**explicit).pformat, PrettyPrinter(**explicit).pprint, '
+        'stripped), a PrettyPrinter object constructed earlier in the history, pretty_repr of a registered type, PrettyPrinter(**explicit).pformat, PrettyPrinter(**explicit).pprint, one PrettyPrinter(stream, settings by keyword or in the positional order of pprint.PrettyPrinter) used for both methods, '
         'pformat / pprint with indent, width, depth passed positionally, pretty_repr of an instance of a subclass that only inherits the printer, pretty_repr as the very first use of a fresh class (or of a subclass of it) whose '
         'printer is registered by name}. '
         'Exhaustive: every single setting explicit-vs-default x every entry point after each single-setting '
@@ -35,7 +35,7 @@ DOMAIN = {
 }
 DEFAULTABLE = ['width', 'ribbon_width', 'depth', 'max_seq_len', 'sort_dict_keys']
 ENTRIES = ['pformat', 'pprint_stream', 'pprint_stdout', 'cpprint_off', 'cpprint_on', 'pretty_repr', 'PP.pformat', 'PP.pprint',
-           'pformat_positional', 'pprint_positional', 'pretty_repr_byname', 'pretty_repr_sub', 'pretty_repr_byname_sub']
+           'pformat_positional', 'pprint_positional', 'pretty_repr_byname', 'pretty_repr_sub', 'pretty_repr_byname_sub', 'PP.one_object', 'PP.positional']
 VALUES = [
     ['dict', [[['str', 'b'], ['list', [['int', 1], ['int', 2], ['int', 3]]]], [['str', 'a'], ['tuple', [['str', 'x y'], ['none']]]], [['str', 'c'], ['int', 0]]]],
     ['list', [['list', [['list', [['int', 1], ['str', 'deep']]], ['int', 2]]], ['dict', [[['int', 2], ['int', 1]], [['int', 1], ['int', 2]]]], ['str', 'lorem ipsum dolor sit amet']]],
@@ -197,6 +197,30 @@ def run_entry(entry, value, explicit, end, compact=None):
         pp.PrettyPrinter(stream=s, **explicit).pprint(value)
         out = s.getvalue()
         return out[:-1] + end if out.endswith('\n') else out + '<missing default newline>'
+    if entry in ('PP.one_object', 'PP.positional'):
+        # ONE PrettyPrinter object, constructed with the stream and the settings (keywords, or the positional order of
+        # pprint.PrettyPrinter: indent, width, depth, stream), serves both methods
+        s = io.StringIO()
+        if entry == 'PP.one_object':
+            obj = pp.PrettyPrinter(stream=s, **explicit)
+        else:
+            rest = dict(explicit)
+            pos = []
+            for name in ('indent', 'width', 'depth'):
+                if name in rest:
+                    pos.append(rest.pop(name))
+                else:
+                    break
+            if len(pos) == 3:
+                obj = pp.PrettyPrinter(*pos, s, **rest)
+            else:
+                obj = pp.PrettyPrinter(*pos, stream=s, **rest)
+        text = obj.pformat(value)
+        obj.pprint(value)
+        out = s.getvalue()
+        if out != text + '\n':
+            return '<pprint wrote %r, pformat returned %r>' % (out[:200], text[:200])
+        return text + end
     raise ValueError(entry)
 
 
